@@ -2,6 +2,8 @@ import PercevalModel.Proto
 import PercevalModel.Model.C16
 import PercevalModel.Model.C16Mat
 import PercevalModel.Model.C16Heap
+import PercevalModel.Model.C16Rpc
+import PercevalModel.Model.C16Add
 
 /-!
   Line protocol for C16.  One request = one session:
@@ -25,6 +27,16 @@ import PercevalModel.Model.C16Heap
   `"want": true`: the reply's `"mats"` then has, for that op, the exact matrix of the component list the processor
   holds after it (`circMat`), `null` otherwise.  The two machines share `step`; should one refuse (precondition)
   what the other accepts, the request is answered `{"err": …}`.
+
+  Extension (round 5, `Model/C16Rpc.lean`).  The request carries the handler
+    "handler": {"name": s, "url": s, "token": s|null, "proxies": n|null, "timeout": n}
+  and an `execute` op carries, instead of `"net"`, what the transport does to the POST it may emit
+    "wire": "read_timeout" | "connection_error" | "connect_timeout"
+          | {"code": n, "reply": "not_json" | "list" | {"job_id": s|null, "error": s|null}}
+  The session also runs on `rstep` (it must agree with the heap machine on the world — else `{"err": …}`); the
+  output of an `execute` is `rstep`'s: `{"sent": {…}, "id": s}` | `{"err": cls, "msg": s|null, "posted": {…},
+  "accepted": b}` (exception class of `create_job`) | the session machine's refusal.  The reply's `"http"` lists, per
+  op, the HTTP requests the model says the client emits: `{"verb","url","auth","timeout","proxies","platform"}`.
 -/
 
 open Lean PM.Proto PM.C16
@@ -39,6 +51,7 @@ def pvOfJson (j : Json) : Except String PV :=
   | .null => pure .none
   | .str s => pure (.str s)
   | .num _ => do pure (.int (← j.getInt?))
+  | .bool b => pure (.bool b)
   | _ => throw "bad scalar"
 
 def natListOf (j : Json) : Except String (List Nat) := natList j
@@ -89,6 +102,26 @@ def netOf (s : String) : Except String Net :=
   else if s = "down" then pure .down
   else throw s!"unknown network behaviour {s}"
 
+def textOf (j : Json) : Except String Text := do pure (← j.getStr?).toList
+def textJson (t : Text) : Json := .str (String.ofList t)
+
+def replyOf (j : Json) : Except String Reply :=
+  match j with
+  | .str "not_json" => pure .notJson
+  | .str "list" => pure .list
+  | _ => do pure (.obj (← optOf j "job_id" textOf) (← optOf j "error" textOf))
+
+def wireOf (j : Json) : Except String Wire :=
+  match j with
+  | .str "read_timeout" => pure .readTimeout
+  | .str "connection_error" => pure .connectionError
+  | .str "connect_timeout" => pure .connectTimeout
+  | _ => do pure (.answer (← natOf j "code") (← replyOf (← j.getObjVal? "reply")))
+
+def handlerOf (j : Json) : Except String Handler := do
+  pure { name := ← textOf (← j.getObjVal? "name"), url := ← textOf (← j.getObjVal? "url"),
+         token := ← optOf j "token" textOf, proxies := ← optOf j "proxies" (·.getNat?), timeout := ← natOf j "timeout" }
+
 def opOf (j : Json) : Except String Op := do
   let op ← strOf j "op"
   if op = "new_remote" then
@@ -117,7 +150,7 @@ def opOf (j : Json) : Except String Op := do
   if op = "job" then return .createJob (← methodOf (← strOf j "method"))
   if op = "execute" then
     return .execute (← natOf j "job") (← (← arrOf j "args").toList.mapM pvOfJson)
-      (← pairsOf (← j.getObjVal? "kw") pvOfJson) (← netOf (← strOf j "net"))
+      (← pairsOf (← j.getObjVal? "kw") pvOfJson) (← wireOf (← j.getObjVal? "wire")).net
   throw s!"unknown op {op}"
 
 /-! output -/
@@ -126,6 +159,7 @@ def pvJson : PV → Json
   | .none => .null
   | .int i => toJson i
   | .str s => .str s
+  | .bool b => .bool b
 
 def natsJson (l : List Nat) : Json := .arr (l.map (toJson ·)).toArray
 def pairsJson (d : List (String × α)) (f : α → Json) : Json :=
@@ -166,6 +200,17 @@ def outJson : Out → Json
   | .sent s => Json.mkObj [("sent", sentJson s)]
   | .lost s => Json.mkObj [("err", .str Err.transport.name), ("received", sentJson s)]
 
+def routJson (wire : Wire) : ROut → Json
+  | .plain o => outJson o
+  | .sent id s => Json.mkObj [("sent", sentJson s), ("id", textJson id)]
+  | .raised cls msg s => Json.mkObj [("err", .str cls), ("msg", optJson msg textJson), ("posted", sentJson s),
+      ("accepted", wire.accepted)]
+
+def exchangeJson (x : Exchange) : Json :=
+  Json.mkObj [("verb", .str (match x.req.verb with | .get => "GET" | .post => "POST")), ("url", textJson x.req.url),
+    ("auth", textJson x.req.auth), ("timeout", toJson x.req.timeout), ("proxies", optJson x.req.proxies (toJson ·)),
+    ("platform", optJson x.req.body (fun b => textJson b.platform))]
+
 def expJson (e : Exp) : Json :=
   Json.mkObj [("m", toJson e.m), ("size", toJson e.size), ("heralds", heraldsJson e.heralds),
     ("input", optJson e.input natsJson), ("post", optJson e.post symJson), ("noise", optJson e.noise (toJson ·)),
@@ -199,6 +244,56 @@ def copOf (j : Json) : Except String COp := do
   if op = "set_circuit" then return .setCircuit (← boolOf j "checked") (← ucOf (← j.getObjVal? "c"))
   return .plain (← opOf j)
 
+/-! extension (round 5): mappings, ports, parameters, `clear_input_and_circuit` -/
+
+def mkeyOf (j : Json) : Except String MKey :=
+  match j with
+  | .str s => pure (.port s)
+  | _ => do pure (.mode (← j.getInt?))
+
+def mvalOf (j : Json) : Except String MVal :=
+  match j with
+  | .arr a => do pure (.modes (← a.toList.mapM (·.getInt?)))
+  | .str _ => pure .str
+  | _ => do pure (.mode (← j.getInt?))
+
+def mappingOf (j : Json) : Except String Mapping := do
+  if let .ok k := j.getObjVal? "offset" then return .offset (← k.getInt?)
+  if let .ok l := j.getObjVal? "list" then return .list (← intList l)
+  if let .ok d := j.getObjVal? "dict" then
+    return .dict (← (← d.getArr?).toList.mapM fun p => do
+      match p with
+      | .arr #[k, v] => pure (← mkeyOf k, ← mvalOf v)
+      | _ => throw "bad mapping item")
+  throw "bad mapping"
+
+def condsOf (j : Json) : Except String (List (List Nat)) := do (← j.getArr?).toList.mapM natList
+
+def aopOf (j : Json) : Except String AOp := do
+  let op ← strOf j "op"
+  if op = "post" then
+    match ← optOf j "p" (·.getNat?) with
+    | none => return .clearPost
+    | some id => return .post id (← condsOf (← j.getObjVal? "conds"))
+  if op = "convert" then
+    let p ← expOf (← j.getObjVal? "p")
+    let pc ← (← arrOf j "pcomps").toList.mapM compOf
+    if p.post.isSome then return .convertPS p pc (← condsOf (← j.getObjVal? "conds"))
+    return .base (.convert p pc)
+  if op = "add_port" then return .addPort (← natOf j "mode") (← strOf j "name") (← natOf j "size")
+  if op = "add_comp" then return .addMapped (.offset (← intOf j "k")) (← ucOf (← j.getObjVal? "c"))
+  if op = "add_mapped" then return .addMapped (← mappingOf (← j.getObjVal? "map")) (← ucOf (← j.getObjVal? "c"))
+  if op = "set_params" then
+    return .setParams (← (← arrOf j "d").toList.mapM fun p => do
+      match p with
+      | .arr #[k, v] => do
+        let key ← (if k.isNull then pure none else do pure (some (← k.getStr?)))
+        pure (key, ← pvOfJson v)
+      | _ => throw "bad parameter item")
+  if op = "thresholded" then return .thresholded (← boolOf j "v")
+  if op = "clear_all" then return .clearAll (← optOf j "new_m" (·.getInt?)) (← natOf j "sym")
+  return .base (← copOf j)
+
 abbrev Table := Array (Nat × Array (Array GQ))
 
 def tableSet (t : Table) (id : Nat) (rows : Array (Array GQ)) : Table :=
@@ -230,32 +325,55 @@ def handle (j : Json) : Json :=
     let pf ← platformOf (← j.getObjVal? "pf")
     let aliased ← boolOf j "aliased"
     let opsJ ← arrOf j "ops"
+    let handler ← handlerOf (← j.getObjVal? "handler")
+    let thrOnly := (j.getObjVal? "thr_only").toOption.bind (·.getBool?.toOption) |>.getD false
     let mut hw := HWorld.init pf
-    let mut cw := CWorld.init pf
+    let mut rw := RWorld.init pf handler
+    let mut https : Array Json := #[]
+    let mut aw := AWorld.init pf thrOnly
     let mut table : Table := #[]
     let mut outs : Array Json := #[]
     let mut states : Array Json := #[]
     let mut mats : Array Json := #[]
     for oj in opsJ do
       table ← envUpdate table oj
-      let cop ← copOf oj
-      let (cw', oc) := cstep cw cop
-      if oc == .err .precondition ∧ cw' == cw then
-        -- outside the modelled domain of the machine with components: nothing happens on either machine
-        outs := outs.push (outJson oc)
+      let aop ← aopOf oj
+      let (aw', oa) := astep aw aop
+      if oa == .err .precondition ∧ aw' == aw then
+        -- outside the modelled domain: nothing happens on any machine
+        outs := outs.push (outJson oa)
+        https := https.push (.arr #[])
       else
-        let (hw', oh) := hstep aliased hw cop.toOp
-        if hw'.w.exp != cw'.w.exp then throw "the two machines disagree on the processor"
-        hw := hw'
-        cw := cw'
-        outs := outs.push (outJson oh)
+        match aop.delegate aw with
+        | some cop =>
+          -- a call the session machine knows: the heap machine and the machine with the HTTP layer run it too
+          let (hw', oh) := hstep aliased hw cop.toOp
+          if hw'.w.exp != aw'.cw.w.exp then throw "the machines disagree on the processor"
+          let wire ← match cop.toOp with
+            | .execute .. => wireOf (← oj.getObjVal? "wire")
+            | _ => pure .readTimeout
+          let (rw', orr) := rstep rw (cop.toOp, wire)
+          if !aliased ∧ rw'.w != hw'.w then throw "the machine with the HTTP layer disagrees with the session machine"
+          if !aliased ∧ aw'.cw.w != hw'.w then throw "the machine with mappings disagrees with the session machine"
+          https := https.push (.arr ((rw'.http.drop rw.http.length).map exchangeJson).toArray)
+          hw := hw'
+          rw := rw'
+          outs := outs.push (if aliased then outJson oh else routJson wire orr)
+        | none =>
+          -- a call only `astep` knows: it changes the processor, nothing else, and emits nothing
+          hw := { hw with w := { hw.w with exp := aw'.cw.w.exp } }
+          rw := { rw with w := { rw.w with exp := aw'.cw.w.exp } }
+          https := https.push (.arr #[])
+          outs := outs.push (outJson oa)
+        aw := { aw' with cw := { aw'.cw with w := hw.w } }
       states := states.push (optJson hw.w.exp expJson)
       let want := (oj.getObjVal? "want").toOption.bind (·.getBool?.toOption) |>.getD false
       mats := mats.push (match want, hw.w.exp with
-        | true, some e => matJson table e.size cw.comps
+        | true, some e => matJson table e.size aw.cw.comps
         | _, _ => .null)
     pure (Json.mkObj [("outs", .arr outs), ("states", .arr states), ("log", toJson hw.w.log.length),
-      ("iterator", optJson hw.w.sampler (fun s => itersJson s.iterator)), ("mats", .arr mats)])
+      ("iterator", optJson hw.w.sampler (fun s => itersJson s.iterator)), ("mats", .arr mats),
+      ("http", .arr https), ("posts", toJson (posts rw.http).length)])
   match r with
   | .ok v => v
   | .error e => errJson e
